@@ -3,7 +3,10 @@ Model of how boundary-condition *specifications* are resolved to one condition p
 (`BoundariesList.from_data` / `_parse_from_dict` in pde/grids/boundaries/axes.py,
 `get_boundary_axis` / `BoundaryPair.from_data` in axis.py, `BCBase.from_data/from_dict/from_str`
 in local.py).  Values are opaque ids (`Nat`); what is modelled is *which* specification ends up
-on which side, which class it denotes, and which error class is raised.  Core Lean only.
+on which side, which class it denotes, and which error class is raised - for every accepted
+format: one string / condition dictionary for everything, a dictionary keyed by `*`, axis names,
+`axis-`/`axis+` and boundary names whose values are one condition, `{"low": .., "high": ..}` or
+a two-element sequence, and the legacy top-level `{"low","high"}` and list formats.  Core Lean only.
 -/
 namespace PdeVerif.BCParse
 
@@ -50,6 +53,21 @@ inductive AxisBC
   | pair (lo hi : Kind × Nat)
   deriving DecidableEq, Repr
 
+/-- what can be written for an axis (under an axis key, `*`, a side key or a named boundary):
+one condition, the dictionary `{"low": .., "high": ..}` (a missing key is `none`; `extra` = the
+dictionary has further items), or a list/tuple of conditions -/
+inductive Entry
+  | one (s : Spec)
+  | lowHigh (lo hi : Option Spec) (extra : Bool)
+  | seq (l : List Spec)
+  deriving DecidableEq, Repr
+
+/-- Python truthiness of an entry (`if bc := data.pop(key, None)`): only the empty list/tuple is
+falsy (strings and dictionaries of the modelled formats are never empty) -/
+def Entry.truthy : Entry → Bool
+  | .seq [] => false
+  | _ => true
+
 /-- `BCBase.from_data` for one side (`periodicAxis` = `grid.periodic[axis]`) -/
 def sideBC (periodicAxis : Bool) (s : Option Spec) : Except Err (Kind × Nat) :=
   match s with
@@ -68,7 +86,7 @@ def pairOf (periodicAxis : Bool) (lo hi : Option Spec) : Except Err AxisBC :=
     | .error e => .error e
     | .ok h => .ok (.pair l h)
 
-/-- `get_boundary_axis` for a single specification (or two identical ones) -/
+/-- `get_boundary_axis` for a single specification -/
 def single (periodicAxis : Bool) (s : Option Spec) : Except Err AxisBC :=
   match s with
   | some .periodic => if periodicAxis then .ok .periodic else .error .periodicity
@@ -77,11 +95,64 @@ def single (periodicAxis : Bool) (s : Option Spec) : Except Err AxisBC :=
     if periodicAxis then .ok .periodic else pairOf periodicAxis (some (.named n v)) (some (.named n v))
   | s => pairOf periodicAxis s s
 
-/-- `get_boundary_axis(grid, axis, (lo, hi))` -/
+/-- `get_boundary_axis(grid, axis, (lo, hi))` for two conditions -/
 def axisBC (periodicAxis : Bool) (lo hi : Option Spec) : Except Err AxisBC :=
   if lo = hi then single periodicAxis lo   -- two identical conditions are treated like one
   else if lo = some .periodic ∨ hi = some .periodic then .error .bcdata
   else pairOf periodicAxis lo hi
+
+/-- `BoundaryPair.from_data` for the dictionary `{"low": lo, "high": hi, ...}`: `pop("low")`
+(`KeyError` if missing), the lower condition is built, `pop("high")`, the upper condition is built,
+then left-over items are an error -/
+def lowHighBC (periodicAxis : Bool) (lo hi : Option Spec) (extra : Bool) : Except Err AxisBC :=
+  match lo with
+  | none => .error .key
+  | some l =>
+    match sideBC periodicAxis (some l) with
+    | .error e => .error e
+    | .ok L =>
+      match hi with
+      | none => .error .key
+      | some h =>
+        match sideBC periodicAxis (some h) with
+        | .error e => .error e
+        | .ok H => if extra then .error .bcdata else .ok (.pair L H)
+
+/-- `get_boundary_axis(grid, axis, data)` when `data` is ONE entry (after the reduction of two
+identical entries, or an element of the legacy list format): no further reduction takes place,
+so `("periodic", "periodic")` written as an entry is the error "only one side ... periodic" -/
+def entryBC (periodicAxis : Bool) : Entry → Except Err AxisBC
+  | .one s => single periodicAxis (some s)
+  | .lowHigh lo hi extra => lowHighBC periodicAxis lo hi extra
+  | .seq [a, b] =>
+    if a = .periodic ∨ b = .periodic then .error .bcdata else pairOf periodicAxis (some a) (some b)
+  | .seq _ => .error .bcdata
+
+/-- the condition an entry denotes when it stands for ONE side (`BCBase.from_data`): anything but
+a single condition is `BCDataError` there -/
+def Entry.asSide : Option Entry → Option Spec
+  | some (.one s) => some s
+  | _ => none
+
+/-- is the side entry the string "periodic"? (`data[0] == "periodic" or data[1] == "periodic"`) -/
+def Entry.isPeriodic : Option Entry → Bool
+  | some (.one .periodic) => true
+  | _ => false
+
+/-- `get_boundary_axis(grid, axis, (lo, hi))` for the two resolved side entries -/
+def axisOfSides (periodicAxis : Bool) (lo hi : Option Entry) : Except Err AxisBC :=
+  if lo = hi then
+    match lo with
+    | none => .error .bcdata           -- nothing specified at all
+    | some e => entryBC periodicAxis e -- two identical entries are treated like one
+  else if Entry.isPeriodic lo ∨ Entry.isPeriodic hi then .error .bcdata
+  else pairOf periodicAxis (Entry.asSide lo) (Entry.asSide hi)
+
+/-- `get_boundary_axis(grid, axis, data)` for an element of the legacy list format: a list of two
+identical conditions is first reduced to that condition -/
+def axisOfData (periodicAxis : Bool) : Entry → Except Err AxisBC
+  | .seq [a, b] => if a = b then single periodicAxis (some a) else entryBC periodicAxis (.seq [a, b])
+  | e => entryBC periodicAxis e
 
 /-- names a grid offers: axes, alternative axis names, named boundaries, periodicity -/
 structure GridNames where
@@ -90,10 +161,7 @@ structure GridNames where
   sides : List (String × Nat × Bool)    -- `boundary_names`: name -> (axis, upper)
   periodic : List Bool
 
-abbrev Data := List (String × Spec)     -- a dict (keys unique)
-
-def pop (d : Data) (k : String) : Option Spec × Data :=
-  (d.lookup k, d.filter (fun e => e.1 != k))
+abbrev Data := List (String × Entry)    -- a dict (keys unique)
 
 /-- "replace synonymous axes names" loop -/
 def renameAlt (alt : List (String × String)) (d : Data) : Except Err Data :=
@@ -105,28 +173,47 @@ def renameAlt (alt : List (String × String)) (d : Data) : Except Err Data :=
         if (d.lookup (pr.2 ++ ext)).isSome then .error .key
         else pure ((pr.2 ++ ext, s) :: d.filter (fun e => e.1 != pr.1 ++ ext))) d) d
 
+/-- `if bc := data.pop(key, None)`: a missing key and a falsy value are both skipped -/
+def get (d : Data) (k : String) : Option Entry := (d.lookup k).filter Entry.truthy
+
 /-- the imperative resolution of `_parse_from_dict` for one (axis, side): start from the
-wildcard, overwrite by the axis entry, then by the `axis-`/`axis+` entry, then by the named
-boundary -/
-def resolveSide (g : GridNames) (d : Data) (ax : Nat) (upper : Bool) : Option Spec :=
+wildcard (taken as it is), overwrite by the axis entry, then by the `axis-`/`axis+` entry, then
+by the named boundary; keys the grid does not know are never looked at -/
+def resolveSide (g : GridNames) (d : Data) (ax : Nat) (upper : Bool) : Option Entry :=
   let axName := g.axes.getD ax ""
   let s0 := d.lookup "*"
-  let s1 := d.lookup axName <|> s0                                           -- overwrite by axis
-  let s2 := d.lookup (axName ++ (if upper then "+" else "-")) <|> s1         -- overwrite by side
+  let s1 := get d axName <|> s0                                              -- overwrite by axis
+  let s2 := get d (axName ++ (if upper then "+" else "-")) <|> s1            -- overwrite by side
   let names := g.sides.filter (fun e => e.2.1 == ax && e.2.2 == upper)
-  names.foldl (fun acc e => d.lookup e.1 <|> acc) s2                          -- named boundaries
+  names.foldl (fun acc e => get d e.1 <|> acc) s2                             -- named boundaries
 
 /-- top-level formats of `BoundariesList.from_data` -/
 inductive Top
   | all (s : Spec)          -- a string, or a dict that itself is a local condition
+  | lowHigh (lo hi : Option Spec) (extra : Bool)   -- legacy: a dict with "low"/"high" for every axis
   | dict (d : Data)
+  | list (l : List Entry)   -- legacy: one entry per axis, or the two sides of a 1-axis grid
 
 def parse (g : GridNames) (t : Top) : Except Err (List AxisBC) :=
+  let n := g.axes.length
   match t with
-  | .all s => (List.range g.axes.length).mapM (fun ax => axisBC (g.periodic.getD ax false) (some s) (some s))
+  | .all s => (List.range n).mapM (fun ax => axisBC (g.periodic.getD ax false) (some s) (some s))
+  | .lowHigh lo hi extra =>
+    (List.range n).mapM (fun ax => lowHighBC (g.periodic.getD ax false) lo hi extra)
   | .dict d => do
     let d' ← renameAlt g.alt d
-    (List.range g.axes.length).mapM (fun ax =>
-      axisBC (g.periodic.getD ax false) (resolveSide g d' ax false) (resolveSide g d' ax true))
+    (List.range n).mapM (fun ax =>
+      axisOfSides (g.periodic.getD ax false) (resolveSide g d' ax false) (resolveSide g d' ax true))
+  | .list l =>
+    if l.length = n then
+      (List.range n).mapM (fun ax =>
+        match l[ax]? with
+        | some e => axisOfData (g.periodic.getD ax false) e
+        | none => .error .bcdata)
+    else if n = 1 ∧ l.length = 2 then
+      match l with
+      | [a, b] => do pure [← axisOfSides (g.periodic.getD 0 false) (some a) (some b)]
+      | _ => .error .bcdata
+    else .error .bcdata
 
 end PdeVerif.BCParse
